@@ -287,6 +287,28 @@ def scenario_direct(run, seed, idx, cImageD11, indexing):
             k = int(np.nonzero(uniq & (grain_of != grain_of0))[0][0])
             V("fight_over_peaks:order-dependent", "peak %d goes to grain %r when the grain list is presented as %r but to grain "
               "%r in natural order (no tie)" % (k, grain_of[k], pm, grain_of0[k]), k)
+    # a grain list whose LAST entries own no peak: an exact copy of an earlier grain (a later grain takes a peak only when it
+    # is strictly better, so the copy gets nothing) and an orientation that indexes nothing at all.  Labels of the others
+    # must not change and the per-grain counts must still be the histogram of the labels, with zeros at the end.
+    pm = [int(x) for x in r.permutation(ng)]
+    dead = [ubis[pm[0]].copy()]
+    far = ubis[pm[0]] * 0.731 + 0.0137             # another lattice: judged below, whatever it happens to index
+    ix.ubis = [ubis[g].copy() for g in pm] + dead + [far]
+    cImageD11.cimaged11_omp_set_num_threads(int(r.choice(THREADS)))
+    ix.fight_over_peaks()
+    run.count("fight_over_peaks_runs_with_peakless_last_grains")
+    ga = np.asarray(ix.ga)
+    if (ga == ng).any():
+        V("fight_over_peaks:copy-takes-peaks", "an exact copy of grain %d presented later took %d peaks" % (pm[0], int((ga == ng).sum())))
+    if not np.array_equal(np.asarray(ix.gas), np.bincount(ga[ga >= 0], minlength=ng + 2)):
+        V("fight_over_peaks:gas", "with peak-less grains at the end of the list the per-grain counts %r != histogram of labels %r"
+          % (list(ix.gas), np.bincount(ga[ga >= 0], minlength=ng + 2).tolist()))
+    keep = uniq & (ga != ng + 1)
+    grain_of = np.where((ga >= 0) & (ga < ng), np.asarray(pm)[np.where((ga >= 0) & (ga < ng), ga, 0)], -1)
+    if not np.array_equal(grain_of[keep], grain_of0[keep]):
+        k = int(np.nonzero(keep & (grain_of != grain_of0))[0][0])
+        V("fight_over_peaks:order-dependent", "peak %d goes to grain %r when peak-less grains are appended to the list, to grain %r "
+          "without them (no tie)" % (k, grain_of[k], grain_of0[k]), k)
     cImageD11.cimaged11_omp_set_num_threads(4)
 
 
